@@ -48,6 +48,24 @@ def fdaeGrid {α} (O : OFld α) (t0 tend dt uround slack : α) : Except Err (Lis
   let steps := fdaeLoop O tend uround slack nstep t0 dt
   if steps.length + 1 > nstep then .error .index else .ok (t0 :: steps)
 
+/-- `fdae_solver` as the code computes it now: the grid point after k steps is `t0 + k·h` (nothing accumulates), and the end test
+`tt + h ≥ tend − (1e-9·h + 4·spacing(max(|tt|, |tend|)))` also allows for the resolution of the time axis.  In exact arithmetic
+(`spacing = 0`) this is `fdaeLoop` with slack `1 + slackAbs` (`Proofs/FdaeGrid.lean: fdaeLoopK_eq`). -/
+def fdaeLoopK {α} (O : OFld α) (spacing : α → α) (t0 tend h uround slackAbs : α) : Nat → Nat → α → List α
+  | 0, _, _ => []
+  | fuel + 1, k, tt =>
+    let m := if O.lt (O.abs tt) (O.abs tend) then O.abs tend else O.abs tt
+    let tol := O.add (O.mul slackAbs h) (O.mul (O.ofNat 4) (spacing m))
+    let last := O.le (O.sub tend tol) (O.add tt h)
+    let tt' := if last then tend else O.add t0 (O.mul (O.ofNat (k + 1)) h)
+    if last || O.lt (O.abs (O.sub tend tt')) uround then [tt']
+    else tt' :: fdaeLoopK O spacing t0 tend h uround slackAbs fuel (k + 1) tt'
+
+def fdaeGridK {α} (O : OFld α) (spacing : α → α) (t0 tend h uround slackAbs : α) : Except Err (List α) :=
+  let nstep := max (O.ceil (O.div (O.sub tend t0) h) + 1000) 10000
+  let steps := fdaeLoopK O spacing t0 tend h uround slackAbs nstep 0 t0
+  if steps.length + 1 > nstep then .error .index else .ok (t0 :: steps)
+
 def ratO : OFld Rat :=
   { ratFld with lt := fun a b => decide (a < b), le := fun a b => decide (a ≤ b),
                 abs := fun a => if a < 0 then -a else a,
